@@ -6,13 +6,14 @@
    C16  C16_json_parse_prompt, C16_json_parse_fail_spec, C16_json_parse_prefix (Write...Write),
         C16_json_run_parse_* (Parse), C16_json_parse_total_prefix (with totality).
    C17  C17_json_parse_idle, C17_json_writes_idle, C17_json_run_parse_reset, C17_json_run_chunks_reset:
-        after an accepted input cur = jStart, states = [], inEscape = false (and no error latched:
-        jp_parse_err0).  jp_lit is NOT always empty: a top-level number that only finalize reports
-        stays in the literal buffer (C17_json_parse_idle says exactly when; Example
-        C17_json_write_after_number shows that a Write on such a parser mis-parses an object key).
-        Behavioural form: C17_json_reuse_parse / C17_json_parse_reusable (Parse on the used parser
-        = Parse on a fresh one, any visitor), C17_json_reuse_writes / C17_json_write_reusable
-        (Write flavour, side condition jp_lit p = []).
+        after an accepted input cur = jStart, states = [], inEscape = false and the literal buffer
+        is empty (finalize drops the literal of a top-level number it reports);
+        C17_json_parse_fresh, C17_json_writes_fresh, C17_json_run_*_fresh: the parser is fresh_like
+        (additionally no error latched).  Behavioural form: C17_json_session_step - any further Parse
+        or Write...finalize on a fresh_like parser returns what a fresh parser returns (same events,
+        same verdict, any visitor) and leaves it fresh_like if accepted; C17_json_parse_reusable,
+        C17_json_write_reusable, C17_json_chunks_reusable; C17_json_reuse_parse / _writes (no totality).
+        Example C17_json_write_after_number: Parse "12", then Write {"a":1} = fresh parser.
    C18  (a) C18_json_next_total, C18_json_run_total: Next returns for every reader script;
         (b) C18_json_next_value_partial: a nil Next delivered >= 1 event, left the parser idle and
             consumed input (measure jmu); C18_json_next_tree: its events are [flatten t] for one tree
@@ -437,9 +438,10 @@ Lemma jfinalize_rep : forall p, Rep (fun s => ofin (jfinalize pf p s)).
 Proof.
   intros p. unfold jfinalize, ofin.
   destruct (jp_cur p =? jNumber).
-  - apply (Rep_bind _ _ _ (fun _ _ => p)
-             (fun _ s => if (zlen (jp_states (jpop p)) >? 0) && negb (jp_cur (jpop p) =? jStart)
-                         then Some (jpop p, s, jeGeneric) else Some (jpop p, s, jpnil))
+  - set (q := jset_lit (jpop p) []).
+    apply (Rep_bind _ _ _ (fun _ _ => jset_lit p [])
+             (fun _ s => if (zlen (jp_states q) >? 0) && negb (jp_cur q =? jStart)
+                         then Some (q, s, jeGeneric) else Some (q, s, jpnil))
              _ (report_number_rep (jp_lit p) (jp_isdbl p))).
     + intros _. destruct (_ && _); apply Rep_ret.
     + intros s. destruct (report_number pf s (jp_lit p) (jp_isdbl p)) as [[s1 e]|]; [|reflexivity].
@@ -1033,13 +1035,12 @@ Proof.
   split; [reflexivity|]. split; [discriminate|congruence].
 Qed.
 
-(* finalize accepts only at the top level; a pending top-level number is reported and
-   popped, but its literal stays in the buffer *)
+(* finalize accepts only at the top level; a pending top-level number is reported,
+   popped, and its literal is dropped *)
 Lemma jfinalize_idle : forall p s p' s',
   W p -> jfinalize pf p s = Some (p', s', jpnil) ->
-  idle p' /\
-  ((jp_cur p <> jNumber /\ p' = p /\ jp_lit p' = []) \/
-   (jp_cur p = jNumber /\ p' = jpop p /\ jp_lit p' = jp_lit p)).
+  idle p' /\ jp_lit p' = [] /\
+  ((jp_cur p <> jNumber /\ p' = p) \/ (jp_cur p = jNumber /\ p' = jset_lit (jpop p) [])).
 Proof.
   intros p s p' s' Hw H. unfold jfinalize in H.
   pose proof Hw as (Hwf & Hi & Hl).
@@ -1055,14 +1056,14 @@ Proof.
     { destruct (jp_inesc p); [|reflexivity]. destruct (Hi eq_refl) as [K|K]; rewrite Ec in K; discriminate K. }
     destruct (report_number pf s (jp_lit p) (jp_isdbl p)) as [[s1 e]|]; [|discriminate].
     destruct (jisnil e) eqn:Ee; cbn [negb] in H.
-    + destruct ((zlen (jp_states (jpop p)) >? 0) && negb (jp_cur (jpop p) =? jStart)) eqn:Ez;
+    + set (q := jset_lit (jpop p) []) in *.
+      destruct ((zlen (jp_states q) >? 0) && negb (jp_cur q =? jStart)) eqn:Ez;
         [inversion H; ust; lia|].
       inversion H; subst p' s'. clear H.
-      assert (Hpop : wfs (jp_cur (jpop p)) (jp_states (jpop p)) /\ jp_inesc (jpop p) = false /\
-                     jp_lit (jpop p) = jp_lit p).
-      { unfold jpop. destruct (jp_states p) as [|d r]; [congruence|]. cbn [wfs] in Hwf. jsimp. tauto. }
+      assert (Hpop : wfs (jp_cur q) (jp_states q) /\ jp_inesc q = false /\ jp_lit q = []).
+      { unfold q, jpop. destruct (jp_states p) as [|d r]; [congruence|]. cbn [wfs] in Hwf. jsimp. tauto. }
       destruct Hpop as (A & B & C).
-      split; [apply Gi; assumption|]. right. auto.
+      split; [apply Gi; assumption|]. split; [exact C|]. right. auto.
     + inversion H; subst. vm_compute in Ee. discriminate Ee.
   - cbn [negb] in H.
     destruct ((zlen (jp_states p) >? 0) && negb (jp_cur p =? jStart)) eqn:Ez; [inversion H; ust; lia|].
@@ -1072,7 +1073,7 @@ Proof.
       - cbn [wfs] in Hwf. split; [exact Hwf|]. split; [reflexivity|].
         destruct (jp_inesc p); [|reflexivity]. destruct (Hi eq_refl) as [K|K]; rewrite Hwf in K; discriminate K.
       - cbn [wfs] in Hwf. exfalso. unfold zlen in Ez. cbn [length] in Ez. ust. lia. }
-    split; [exact Hidle|]. left. split; [exact Ec|]. split; [reflexivity|].
+    split; [exact Hidle|]. split; [|left; auto].
     destruct Hidle as (K1 & _). destruct (jp_lit p) as [|x l]; [reflexivity|].
     destruct Hl as [K|[K|K]]; try discriminate; rewrite K1 in K; discriminate K.
 Qed.
@@ -1098,33 +1099,28 @@ Lemma with_final_inv : forall p s r, with_final pf p s = Ok r -> jfinalize pf p 
 Proof. intros p s r. unfold with_final. destruct (jfinalize pf p s); [intros [= ->]; reflexivity|discriminate]. Qed.
 
 (* C17, Parse: any parser whose escape flag is clear (e.g. a fresh one, or one that
-   accepted its last input) is idle again after an accepted Parse *)
+   accepted its last input) is idle again after an accepted Parse, with an empty
+   literal buffer *)
 Theorem C17_json_parse_idle : forall p s b p' s',
   jp_inesc p = false -> jp_parse pf p s b = Ok (p', s', jpnil) ->
-  jp_cur p' = jStart /\ jp_states p' = [] /\ jp_inesc p' = false /\
-  (jp_lit p' = [] \/
-   exists p1 s1, jfeed (2 * length b + 2) pf (jreset p) s b = Ok (p1, s1, jpnil) /\
-                 jp_cur p1 = jNumber /\ p' = jpop p1 /\ jp_lit p' = jp_lit p1).
+  jp_cur p' = jStart /\ jp_states p' = [] /\ jp_inesc p' = false /\ jp_lit p' = [].
 Proof.
   intros p s b p' s' Hi H. rewrite jp_parse_reset in H.
   destruct (jfeed (2 * length b + 2) pf (jreset p) s b) as [[[p1 s1] err]| | |] eqn:Hf; try discriminate.
   destruct (jisnil err) eqn:Ee.
   - apply jisnil_true' in Ee. subst err. apply with_final_inv in H.
     pose proof (jfeed_W _ _ _ _ _ _ _ (jreset_W p Hi) Hf eq_refl) as Hw1.
-    destruct (jfinalize_idle _ _ _ _ Hw1 H) as ((A & B & C) & D).
-    split; [exact A|]. split; [exact B|]. split; [exact C|].
-    destruct D as [(_ & _ & D)|(D1 & D2 & D3)]; [left; exact D|right].
-    exists p1, s1. auto.
+    destruct (jfinalize_idle _ _ _ _ Hw1 H) as ((A & B & C) & D & _). auto.
   - inversion H; subst. vm_compute in Ee. discriminate Ee.
 Qed.
 
 (* C17, Write ... Write, finalize *)
 Theorem C17_json_writes_idle : forall chunks p s p' s',
   W p -> jp_writes pf p s chunks = Ok (p', s', jpnil) ->
-  jp_cur p' = jStart /\ jp_states p' = [] /\ jp_inesc p' = false.
+  jp_cur p' = jStart /\ jp_states p' = [] /\ jp_inesc p' = false /\ jp_lit p' = [].
 Proof.
   induction chunks as [|c r IH]; intros p s p' s' Hw H; cbn [jp_writes] in H.
-  - apply with_final_inv in H. destruct (jfinalize_idle _ _ _ _ Hw H) as ((A & B & C) & _). auto.
+  - apply with_final_inv in H. destruct (jfinalize_idle _ _ _ _ Hw H) as ((A & B & C) & D & _). auto.
   - destruct (jp_write pf p s c) as [[[p1 s1] err]| | |] eqn:Hwr; try discriminate.
     destruct (jisnil err) eqn:Ee.
     + apply jisnil_true' in Ee. subst err. eapply IH; [|exact H]. eapply jp_write_W; eauto.
@@ -1133,16 +1129,16 @@ Qed.
 
 Theorem C17_json_run_parse_reset : forall vfail b evs p,
   jrun_parse pf vfail b = Ok (evs, jpnil, p) ->
-  jp_cur p = jStart /\ jp_states p = [] /\ jp_inesc p = false.
+  jp_cur p = jStart /\ jp_states p = [] /\ jp_inesc p = false /\ jp_lit p = [].
 Proof.
   intros vfail b evs p H. unfold jrun_parse in H.
   destruct (jp_parse pf jparser0 (sink0 vfail) b) as [[[p' s'] e']| | |] eqn:E; try discriminate.
-  inversion H; subst. destruct (C17_json_parse_idle jparser0 _ _ _ _ eq_refl E) as (A & B & C & _). auto.
+  inversion H; subst. exact (C17_json_parse_idle jparser0 _ _ _ _ eq_refl E).
 Qed.
 
 Theorem C17_json_run_chunks_reset : forall vfail chunks evs p,
   jrun_chunks pf vfail chunks = Ok (evs, jpnil, p) ->
-  jp_cur p = jStart /\ jp_states p = [] /\ jp_inesc p = false.
+  jp_cur p = jStart /\ jp_states p = [] /\ jp_inesc p = false /\ jp_lit p = [].
 Proof.
   intros vfail chunks evs p H. unfold jrun_chunks in H.
   destruct (jp_writes pf jparser0 (sink0 vfail) chunks) as [[[p' s'] e']| | |] eqn:E; try discriminate.
@@ -1520,42 +1516,101 @@ Proof.
   - inversion H; subst. vm_compute in Ee. discriminate Ee.
 Qed.
 
-(* the statement asked for, with totality: after an accepted Parse on a fresh
-   parser, Parse of any b2 on the same parser object returns, and returns what a
-   fresh parser returns (same events, same verdict), for every visitor *)
+(* ---------- after any accepted Parse / Write sequence the parser is like a fresh one ---------- *)
+Theorem C17_json_parse_fresh : forall p s b p' s',
+  jp_inesc p = false -> jp_err p = 0 -> jp_parse pf p s b = Ok (p', s', jpnil) -> fresh_like p'.
+Proof.
+  intros p s b p' s' Hi He H.
+  destruct (C17_json_parse_idle _ _ _ _ _ Hi H) as (A & B & C & D).
+  pose proof (jp_parse_err0 _ _ _ _ _ Hi He H) as E. unfold fresh_like, idle. auto.
+Qed.
+
+Theorem C17_json_writes_fresh : forall chunks p s p' s',
+  W p -> jp_err p = 0 -> jp_writes pf p s chunks = Ok (p', s', jpnil) -> fresh_like p'.
+Proof.
+  induction chunks as [|c r IH]; intros p s p' s' Hw He H.
+  - destruct (C17_json_writes_idle [] _ _ _ _ Hw H) as (A & B & C & D).
+    cbn [jp_writes] in H. apply with_final_Some in H. pose proof (jfinalize_err _ _ _ _ _ H) as E.
+    unfold fresh_like, idle. rewrite E. auto.
+  - cbn [jp_writes] in H.
+    destruct (jp_write pf p s c) as [[[p1 s1] err]| | |] eqn:Hwr; try discriminate.
+    destruct (jisnil err) eqn:Ee; [|inversion H; subst; vm_compute in Ee; discriminate Ee].
+    apply jisnil_true' in Ee. subst err. eapply IH; [| |exact H].
+    + eapply jp_write_W; eauto.
+    + unfold jp_write in Hwr. destruct (jfeed _ pf p s c) as [[[q sq] eq]| | |]; try discriminate.
+      inversion Hwr; subst. reflexivity.
+Qed.
+
+Lemma fresh_like_W : forall p, fresh_like p -> W p.
+Proof. intros p (Hi & Hl & _). apply idle_W; assumption. Qed.
+
+Theorem C17_json_run_parse_fresh : forall vfail b evs p,
+  jrun_parse pf vfail b = Ok (evs, jpnil, p) -> fresh_like p.
+Proof.
+  intros vfail b evs p H. unfold jrun_parse in H.
+  destruct (jp_parse pf jparser0 (sink0 vfail) b) as [[[p' s'] e']| | |] eqn:E; try discriminate.
+  inversion H; subst. exact (C17_json_parse_fresh jparser0 _ _ _ _ eq_refl eq_refl E).
+Qed.
+
+Theorem C17_json_run_chunks_fresh : forall vfail chunks evs p,
+  jrun_chunks pf vfail chunks = Ok (evs, jpnil, p) -> fresh_like p.
+Proof.
+  intros vfail chunks evs p H. unfold jrun_chunks in H.
+  destruct (jp_writes pf jparser0 (sink0 vfail) chunks) as [[[p' s'] e']| | |] eqn:E; try discriminate.
+  inversion H; subst. exact (C17_json_writes_fresh _ _ _ _ _ W0 eq_refl E).
+Qed.
+
+(* one further use of a fresh-like parser - a Parse, or a sequence of Writes closed by
+   finalize -: it returns, it returns what a fresh parser returns (same events, same
+   verdict, for every visitor), and if the input is accepted the parser is fresh-like
+   again; so by induction a reused parser behaves like a fresh one on every sequence
+   of uses *)
+Inductive jop := OpParse (b : bytes) | OpWrites (chunks : list bytes).
+Definition jop_run (p : jparser) (s : sink) (op : jop) : res (jparser * sink * Z) :=
+  match op with OpParse b => jp_parse pf p s b | OpWrites cs => jp_writes pf p s cs end.
+
+Theorem C17_json_session_step : forall p s op, fresh_like p ->
+  exists p1 p2 s' e', jop_run p s op = Ok (p1, s', e') /\ jop_run jparser0 s op = Ok (p2, s', e') /\
+                      (e' = jpnil -> fresh_like p1).
+Proof.
+  intros p s [b|cs] Hf; cbn [jop_run]; pose proof Hf as ((Hc & Hs & Hi) & Hl & He).
+  - destruct (jp_parse_ok pf p s b) as (p1 & s1 & e1 & H1 & _); [rewrite He; ust; lia|].
+    destruct (jp_parse_ok pf jparser0 s b) as (p2 & s2 & e2 & H2 & _); [cbn; ust; lia|].
+    destruct (C17_json_reuse_parse _ _ _ _ _ _ _ _ _ Hi He H1 H2) as [<- <-].
+    exists p1, p2, s1, e1. split; [exact H1|]. split; [exact H2|].
+    intros ->. eapply C17_json_parse_fresh; eauto.
+  - pose proof (fresh_like_inv _ Hf) as [HI _].
+    destruct (jp_writes_ok pf cs p s (length (jp_states p) + length (jp_lit p)) HI) as (p1 & s1 & e1 & H1 & _); [lia|lia|].
+    destruct (jp_writes_ok pf cs jparser0 s 0%nat inv0) as (p2 & s2 & e2 & H2 & _); [cbn; lia|cbn; lia|].
+    destruct (C17_json_reuse_writes _ _ _ _ _ _ _ _ _ Hf H1 H2) as [<- <-].
+    exists p1, p2, s1, e1. split; [exact H1|]. split; [exact H2|].
+    intros ->. eapply C17_json_writes_fresh; [apply fresh_like_W; exact Hf|exact He|exact H1].
+Qed.
+
+(* the statements asked for: after an accepted Parse on a fresh parser, a Parse / a Write
+   sequence on the same parser object returns what a fresh parser returns *)
 Theorem C17_json_parse_reusable : forall vfail b evs p s b2,
   jrun_parse pf vfail b = Ok (evs, jpnil, p) ->
   exists p1 p2 s' e', jp_parse pf p s b2 = Ok (p1, s', e') /\ jp_parse pf jparser0 s b2 = Ok (p2, s', e').
 Proof.
-  intros vfail b evs p s b2 H. unfold jrun_parse in H.
-  destruct (jp_parse pf jparser0 (sink0 vfail) b) as [[[p' s0] e0]| | |] eqn:E; try discriminate.
-  inversion H; subst. clear H.
-  destruct (C17_json_parse_idle jparser0 _ _ _ _ eq_refl E) as (_ & _ & Hi & _).
-  pose proof (jp_parse_err0 jparser0 _ _ _ _ eq_refl eq_refl E) as He.
-  destruct (jp_parse_ok pf p s b2) as (p1 & s1 & e1 & H1 & _); [rewrite He; ust; lia|].
-  destruct (jp_parse_ok pf jparser0 s b2) as (p2 & s2 & e2 & H2 & _); [cbn; ust; lia|].
-  destruct (C17_json_reuse_parse _ _ _ _ _ _ _ _ _ Hi He H1 H2) as [<- <-].
-  exists p1, p2, s1, e1. auto.
+  intros vfail b evs p s b2 H. apply C17_json_run_parse_fresh in H.
+  destruct (C17_json_session_step p s (OpParse b2) H) as (p1 & p2 & s' & e' & H1 & H2 & _). eauto 8.
 Qed.
 
-(* Write flavour: needs the literal buffer to be empty, i.e. the accepted input must
-   not have ended in a top-level number that only finalize reported (see the
-   counterexample C17_json_write_after_number below) *)
 Theorem C17_json_write_reusable : forall vfail b evs p s chunks,
-  jrun_parse pf vfail b = Ok (evs, jpnil, p) -> jp_lit p = [] ->
+  jrun_parse pf vfail b = Ok (evs, jpnil, p) ->
   exists p1 p2 s' e', jp_writes pf p s chunks = Ok (p1, s', e') /\ jp_writes pf jparser0 s chunks = Ok (p2, s', e').
 Proof.
-  intros vfail b evs p s chunks H Hl. unfold jrun_parse in H.
-  destruct (jp_parse pf jparser0 (sink0 vfail) b) as [[[p' s0] e0]| | |] eqn:E; try discriminate.
-  inversion H; subst. clear H.
-  destruct (C17_json_parse_idle jparser0 _ _ _ _ eq_refl E) as (Hc & Hs & Hi & _).
-  pose proof (jp_parse_err0 jparser0 _ _ _ _ eq_refl eq_refl E) as He.
-  assert (Hf : fresh_like p) by (unfold fresh_like, idle; auto).
-  pose proof (fresh_like_inv _ Hf) as [HI _].
-  destruct (jp_writes_ok pf chunks p s (length (jp_states p) + length (jp_lit p)) HI) as (p1 & s1 & e1 & H1 & _); [lia|lia|].
-  destruct (jp_writes_ok pf chunks jparser0 s 0%nat inv0) as (p2 & s2 & e2 & H2 & _); [cbn; lia|cbn; lia|].
-  destruct (C17_json_reuse_writes _ _ _ _ _ _ _ _ _ Hf H1 H2) as [<- <-].
-  exists p1, p2, s1, e1. auto.
+  intros vfail b evs p s chunks H. apply C17_json_run_parse_fresh in H.
+  destruct (C17_json_session_step p s (OpWrites chunks) H) as (p1 & p2 & s' & e' & H1 & H2 & _). eauto 8.
+Qed.
+
+Theorem C17_json_chunks_reusable : forall vfail cs evs p s op,
+  jrun_chunks pf vfail cs = Ok (evs, jpnil, p) ->
+  exists p1 p2 s' e', jop_run p s op = Ok (p1, s', e') /\ jop_run jparser0 s op = Ok (p2, s', e') /\
+                      (e' = jpnil -> fresh_like p1).
+Proof.
+  intros vfail cs evs p s op H. apply C17_json_run_chunks_fresh in H. apply C17_json_session_step. exact H.
 Qed.
 
 (* ====================================================================== *)
@@ -1582,6 +1637,25 @@ Proof.
   - apply jisnil_false in En. inversion H; subst. congruence.
 Qed.
 
+Lemma jpop_lit_ok : forall p, Forall ret_state (jp_states p) -> jp_err p <> jpnil ->
+  inv (jset_lit (jpop p) []) /\ wgt (jp_cur (jset_lit (jpop p) [])) = 0%nat.
+Proof.
+  intros p Hst Her. destruct (jpop_ok p Hst Her) as (Hi' & Hw' & _). jsimp. split; [|exact Hw'].
+  inv_split Hi'. unfold inv; jsimp. split; [assumption|]. split; [assumption|].
+  split; [|split; assumption]. intros K. rewrite K in Hw'. discriminate Hw'.
+Qed.
+
+Lemma jfinalize_inv : forall p s p' s', inv p -> jfinalize pf p s = Some (p', s', jpnil) -> inv p'.
+Proof.
+  intros p s p' s' Hi H. unfold jfinalize in H. pose proof Hi as Hi0. inv_split Hi.
+  destruct (jp_cur p =? jNumber).
+  - destruct (report_number pf s _ _) as [[s1 e]|]; [|discriminate].
+    destruct (jisnil e) eqn:Ee; cbn [negb] in H.
+    + destruct (_ && _); inversion H; subst; apply (jpop_lit_ok _ Hst Her).
+    + inversion H; subst. vm_compute in Ee. discriminate Ee.
+  - cbn [negb] in H. destruct (_ && _); inversion H; subst; exact Hi0.
+Qed.
+
 Lemma jdec_finalize_ok : forall d s, inv (jd_p d) ->
   exists d' s' e, jdec_finalize pf d s = Ok (d', s', e) /\ (e = jpnil -> inv (jd_p d')) /\
                   jd_script d' = jd_script d /\ jd_buf d' = jd_buf d.
@@ -1589,14 +1663,7 @@ Proof.
   intros d s Hi. unfold jdec_finalize.
   destruct (with_final_ok pf (jd_p d) s Hi) as (p' & s' & err & Heq & _).
   apply with_final_Some in Heq. rewrite Heq.
-  assert (Hinv : err = jpnil -> inv p').
-  { intros ->. unfold jfinalize in Heq. inv_split Hi.
-    destruct (jp_cur (jd_p d) =? jNumber).
-    - destruct (report_number pf s _ _) as [[s1 e]|]; [|discriminate].
-      destruct (jisnil e); cbn [negb] in Heq.
-      + destruct (_ && _); inversion Heq; subst; apply (jpop_ok _ Hst Her).
-      + inversion Heq; subst. unfold inv; auto.
-    - cbn [negb] in Heq. destruct (_ && _); inversion Heq; subst; unfold inv; auto. }
+  assert (Hinv : err = jpnil -> inv p') by (intros ->; eapply jfinalize_inv; eauto).
   destruct (negb (jisnil err)) eqn:En.
   - eexists _, _, _. split; [reflexivity|]. cbn [jd_p jd_script jd_buf]. auto.
   - apply negb_false_iff, jisnil_true in En.
@@ -1829,9 +1896,9 @@ Proof.
   destruct (jp_cur (jd_p d) =? jNumber) eqn:Ec; [|inversion H; ust; lia].
   apply Z.eqb_eq in Ec. inversion H; subst d' s'. cbn [jd_p jd_buf jd_script jd_bytesdec].
   destruct (jfinalize_add _ _ _ _ _ Ef) as (l & -> & Hl).
-  destruct (jfinalize_idle _ _ _ _ Hw Ef) as (Hidle & [(K & _)|(_ & Hp & _)]); [contradiction|].
+  destruct (jfinalize_idle _ _ _ _ Hw Ef) as (Hidle & _ & [(K & _)|(_ & Hp)]); [contradiction|].
   split; [exists l; auto|]. split; [exact Hidle|].
-  inv_split Hi. destruct (jpop_ok _ Hst Her) as (Hi' & Hw' & _).
+  inv_split Hi. destruct (jpop_lit_ok _ Hst Her) as (Hi' & Hw').
   subst p1. split; [exact Hi'|]. repeat split; auto. rewrite Ec. reflexivity.
 Qed.
 
@@ -2538,12 +2605,9 @@ Proof.
   destruct (jfinalize pf p s) as [[[pa sa] ea]|] eqn:Ef; [|discriminate].
   destruct (negb (jisnil ea)) eqn:En.
   { inversion H; subst. vm_compute in En. discriminate En. }
+  apply negb_false_iff, jisnil_true' in En. subst ea.
   destruct (jp_cur p =? jNumber) eqn:Ec; [|inversion H; ust; lia].
-  inversion H; subst. apply negb_false_iff, jisnil_true' in En. subst ea.
-  unfold jfinalize in Ef. rewrite Ec in Ef. inv_split Hi.
-  destruct (report_number pf s _ _) as [[s2 e2]|]; [|discriminate].
-  destruct (jisnil e2) eqn:E2; cbn [negb] in Ef; [|inversion Ef; subst; vm_compute in E2; discriminate E2].
-  destruct (_ && _); inversion Ef; subst; apply (jpop_ok _ Hst Her).
+  inversion H; subst. eapply jfinalize_inv; eauto.
 Qed.
 
 Lemma jdec_next_sound : forall fuel d s d' s' e,
@@ -3172,10 +3236,10 @@ Proof.
   apply negb_false_iff, jisnil_true' in En. subst e.
   destruct (jp_cur (jd_p d) =? jNumber) eqn:Ec; [|inversion H; ust; lia].
   apply Z.eqb_eq in Ec. inversion H; subst d' s'. clear H.
-  destruct (jfinalize_idle _ _ _ _ Hw Ef) as ((_ & Hs1 & _) & [(K & _)|(_ & Hp & _)]); [contradiction|].
+  destruct (jfinalize_idle _ _ _ _ Hw Ef) as ((_ & Hs1 & _) & _ & [(K & _)|(_ & Hp)]); [contradiction|].
   destruct (Frames_leaf _ _ HFr) as [Hs _]; [rewrite Ec; unfold leafst; auto 6|].
   split.
-  - subst p1. unfold jpop in Hs1. destruct (jp_states (jd_p d)) as [|c r] eqn:Es.
+  - subst p1. unfold jpop in Hs1. jsimp. destruct (jp_states (jd_p d)) as [|c r] eqn:Es.
     + exfalso. symmetry in Hs. exact (rets_nonempty _ Hs).
     + jsimp. subst r. symmetry in Hs. eapply rets_single; eauto.
   - unfold jfinalize in Ef. rewrite Ec in Ef. change (jNumber =? jNumber) with true in Ef. cbv iota in Ef.
@@ -3239,21 +3303,18 @@ Qed.
 
 End JsonVisitor.
 
-(* The Write flavour of C17 needs the side condition jp_lit p = []: finalize reports a
-   pending top-level number and pops its state but leaves the literal in the buffer,
-   and doString takes a non-empty buffer for a key that was begun in an earlier
-   write.  Parse "12" (accepted), then Write {"a":1} on the same parser: the key
-   is "2" and the input is refused; a fresh parser accepts it.  (Not reachable through
-   Parser.Parse, which empties the buffer first; the Decoder finalizes at io.EOF only.) *)
+(* The history that exposed the stale literal before finalize was fixed: Parse "12"
+   (a top-level number that only finalize reports), then Write {"a":1} on the same
+   parser, now behaves like a fresh parser. *)
 Example C17_json_write_after_number : forall pf,
   match jp_parse pf jparser0 (sink0 None) [49; 50] with
   | Ok (p, _, e) =>
-      e = jpnil /\ jp_lit p = [49; 50] /\
+      e = jpnil /\ jp_lit p = [] /\
       match jp_writes pf p (sink0 None) [[123; 34; 97; 34; 58; 49; 125]],
             jp_writes pf jparser0 (sink0 None) [[123; 34; 97; 34; 58; 49; 125]] with
       | Ok (_, s1, e1), Ok (_, s2, e2) =>
-          e1 = jeGeneric /\ s_log s1 = [EObjStart (-1) BAny; EKeyRef [50]] /\
-          e2 = jpnil /\ s_log s2 = [EObjStart (-1) BAny; EKeyRef [97]; EVal (SNum KInt64 1); EObjEnd]
+          e1 = jpnil /\ e2 = jpnil /\ s_log s1 = s_log s2 /\
+          s_log s2 = [EObjStart (-1) BAny; EKeyRef [97]; EVal (SNum KInt64 1); EObjEnd]
       | _, _ => False
       end
   | _ => False
@@ -3284,3 +3345,9 @@ Print Assumptions C18_json_reader_as_bytes_partial.
 Print Assumptions C18_json_scripts_same_data.
 Print Assumptions C18_json_next_tree.
 Print Assumptions C18_json_feed_until_tree.
+Print Assumptions C17_json_parse_fresh.
+Print Assumptions C17_json_writes_fresh.
+Print Assumptions C17_json_run_parse_fresh.
+Print Assumptions C17_json_run_chunks_fresh.
+Print Assumptions C17_json_session_step.
+Print Assumptions C17_json_chunks_reusable.
